@@ -252,6 +252,10 @@ def gen_case(r, det, bucket, rows, cols, n_ops, p_valid):
             if photon and (holds3d or r.random() < 0.15):
                 w = last_valid["shape"][0] if (holds3d and last_valid and r.random() < 0.85) else None
                 o["arr"] = gen_xr(r, rows, cols, budget, max(p_valid, 0.6), w=w)
+            elif not photon and r.random() < 0.07:
+                # a DataArray handed to an ArrayBase bucket (numpy adds it by position; the value of `nd += da` is a DataArray)
+                o["arr"] = gen_xr(r, rows, cols, budget, 0.5, form=r.choice(["2d", "2d", "good", "badyx"]),
+                                  dt=r.choice(ALLOWED[bucket]) if r.random() < 0.7 else r.choice(DTYPES))
             else:
                 cls = None
                 if r.random() < 0.15:
@@ -555,6 +559,9 @@ def alphabet(bucket, rows, cols):
                 {"op": "iadd", "arr": x3}, {"op": "iadd", "arr": x3n}, {"op": "read3d"},
                 {"op": "eq", "other": {"kind": "photon", "rows": rows, "cols": cols, "content": x3}}]
     else:
+        ops += [{"op": "iadd", "arr": {"xr": {"dims": [1, 2], "wl": None}, "shape": [rows, cols], "dt": good_dt, "data": [2] * n}},
+                {"op": "add", "arr": {"xr": {"dims": [1, 2], "wl": None}, "shape": [rows, cols], "dt": good_dt, "data": [3] * n},
+                 "via": "detector"}]
         ops += [{"op": "update", "arr": None}, {"op": "update", "arr": ok},
                 {"op": "update", "arr": np_([rows, cols + 1], good_dt, [1] * (rows * (cols + 1)))}]
     return ops
@@ -902,8 +909,8 @@ def cross_check_type_lists(ctx: Ctx):
 def run(ctx: Ctx):
     ctx.trusted += TRUSTED
     ctx.assumptions += [
-        "operands are numpy.ndarray or xarray.DataArray objects (what the type annotations allow); Python scalars/lists "
-        "are not generated",
+        "operands are numpy.ndarray or xarray.DataArray objects (DataArrays are handed to the ArrayBase buckets as well); "
+        "Python scalars/lists are not generated",
         "array values: small integers (all partial sums below 2048, exact in float16), NaN, +-inf; complex values have "
         "imaginary part 0",
         "xarray in-place addition is modelled only for DataArrays with dims (wavelength, y, x) and a wavelength "
@@ -1098,7 +1105,7 @@ META = dict(
         "satisfy the invariant; a failed operation leaves the state untouched; reading an empty container raises; "
         "== returns exactly the equality specification, is symmetric and never raises, for all pairs of containers "
         "satisfying the invariant (NaN-free contents). No operation is excluded and no statement is refuted any more "
-        "(C13-F2a/b/c, C13-F3a/b/c repaired in the code; the translator maps the old shapes to tables that fail "
+        "(C13-F2a/b/c/d, C13-F3a/b/c repaired in the code; the translator maps the old shapes to tables that fail "
         "C13_source_tables_ok). The model is tied to the code by running generated operation sequences on buckets of "
         "real detectors of all four types and comparing, inside Coq and after every operation, the stored array "
         "(shape, dtype, every element), .shape, .dtype, the returned value and the exception class with the model; the "
